@@ -410,12 +410,50 @@ func c18Dates(c *Ctx, p *Prog) {
 			}
 		})
 	}
+	// or a hand-written recogniser: a predicate of the package over the string that admits exactly one length
+	handLen := -1
+	if pattern == "" {
+		lenEq := func(g *ssa.Function, prm ssa.Value) int {
+			k := -1
+			eachInstr(g, func(_ *ssa.BasicBlock, in ssa.Instruction) {
+				bo, ok := in.(*ssa.BinOp)
+				if !ok || (bo.Op != token.EQL && bo.Op != token.NEQ) {
+					return
+				}
+				call, ok := bo.X.(*ssa.Call)
+				if !ok {
+					return
+				}
+				if bi, ok := call.Call.Value.(*ssa.Builtin); ok && bi.Name() == "len" && call.Call.Args[0] == prm {
+					if kk, ok := constInt(bo.Y); ok {
+						k = int(kk)
+					}
+				}
+			})
+			return k
+		}
+		eachInstr(fn, func(_ *ssa.BasicBlock, in ssa.Instruction) {
+			call, ok := in.(*ssa.Call)
+			if !ok {
+				return
+			}
+			g := call.Call.StaticCallee()
+			if g == nil || g.Pkg != fn.Pkg || g.Blocks == nil || len(g.Params) != 1 || !isString(g.Params[0].Type()) || g.Signature.Results().Len() != 1 || !isBoolean(g.Signature.Results().At(0).Type()) {
+				return
+			}
+			if k := lenEq(g, g.Params[0]); k > 0 {
+				handLen = k
+				pattern = "the hand-written recogniser " + g.Name()
+			}
+		})
+	}
 	if pattern == "" {
 		c.Undecided(R, "compact-form:pattern", site, "cannot find the regular expression guarding the compact date form")
 	} else {
-		re, err := syntax.Parse(pattern, syntax.Perl)
 		fixed := -1
-		if err == nil {
+		if handLen > 0 {
+			fixed = handLen
+		} else if re, err := syntax.Parse(pattern, syntax.Perl); err == nil {
 			fixed = fixedLen(re.Simplify())
 		}
 		// slice bounds on the parameter
